@@ -88,9 +88,9 @@ def corruption_class(spec):
         return "dict-other"
     if tag == "objarray":
         # np.array(tmp, dtype="O") is used for every rank but 1: cells that are sequences (and, for rank 0, any cell whose
-        # state has a list as content: list/tuple/set) become axes
+        # state has an iterable content: list/tuple/set, or an empty dict) become axes
         if len(spec[1]) != 1 and any(x[0] in ("list", "tuple", "mylist", "namedtuple", "mytuple", "ndarray", "objarray", "matrix", "masked") or
-                                     (not spec[1] and x[0] == "set") for x in spec[2]):
+                                     (not spec[1] and x[0] in ("set",) + DICT_TAGS) for x in spec[2]):
             return "objarray-of-sequences"
         return "objarray-other"
     if tag in ("myint", "mystr"):
